@@ -225,17 +225,22 @@ P(enc, off, len, d, tail, fk, two) ==
 
 DS == IF Big THEN 0..7 ELSE {0, 7}         \* distance of the copy source from the start of the output;
                                            \* it also moves the reference through the flag-bit positions
+FK(d) == IF d % 2 = 0 THEN "lit" ELSE "rep"
 StreamParams ==
        {P(1, off, len, d, tail, "lit", two) : off \in E1Offs, len \in LongLens, d \in DS, tail \in {0, 1}, two \in {0, 1}}
-  \cup {P(2, off, len, d, 0, "lit", two) : off \in E2Offs, len \in ShortLens, d \in DS \ {1}, two \in {0, 1, 2}}
-  \cup {P(2, off, len, d, 2, "lit", 0) : off \in E2Offs, len \in ShortLens, d \in DS \ {1}}
-  \cup {P(3, off, len, d, tail, fk, 0) : off \in E3Near, len \in LongLens, d \in DS \ {1}, tail \in {0, 1}, fk \in {"lit", "rep"}}
+  \cup {P(2, off, len, d, 0, FK(d), two) : off \in E2Offs, len \in ShortLens, d \in DS \ {1}, two \in {0, 1, 2}}
+  \cup {P(2, off, len, d, 2, FK(d), 0) : off \in E2Offs, len \in ShortLens, d \in DS \ {1}}
+  \cup {P(3, off, len, 0, tail, "lit", 0) : off \in E3Near, len \in LongLens, tail \in {0, 1}}
+  \cup {P(3, off, len, 7, tail, "rep", 0) : off \in E3Near, len \in LongLens, tail \in {0, 1}}
   \cup {P(3, off, len, 0, 0, "rep", 1) : off \in E3Near, len \in LongLens}
-  \cup {P(3, off, len, d, tail, "rep", 0) : off \in E3Far, len \in LongLens, d \in {0, 6}, tail \in {0, 9}}
-  \cup {P(3, off, 258, 1, 0, "rep", 1) : off \in E3Far}
+  \cup {P(3, off, len, d, 0, "rep", 0) : off \in E3Far, len \in {3, 4, 35, 258}, d \in {0, 6}}
+  \cup {P(3, off, 258, 1, 9, "rep", 1) : off \in E3Far}
   \cup {P(3, 128 + 16383, 258, 0, 0, "lit", 0)}
   \cup (IF Big THEN {P(3, off, len, d, 0, "lit", 0) : off \in E3Far, len \in {3, 258}, d \in {0, 5}}
-                  \cup {P(3, off, len, d, tail, "rep", 1) : off \in E3Far, len \in LongLens, d \in {1, 7}, tail \in {0, 1}}
+                  \cup {P(3, off, len, d, tail, "rep", two) : off \in E3Far, len \in LongLens, d \in {0, 1, 7},
+                                                              tail \in {0, 1, 9}, two \in {0, 1}}
+                  \cup {P(3, off, len, d, tail, fk, 0) : off \in E3Near, len \in LongLens, d \in DS \ {1}, tail \in {0, 1},
+                                                          fk \in {"lit", "rep"}}
         ELSE {})
 
 ---------------------------------------------------------------------------
